@@ -147,10 +147,19 @@ def run(ctx, rep):
                             rs.append(d[2])
                     case = dict(fn=name, current=cur.tolist(), best=best.tolist(), population=pop.tolist(), F=F, draws=script)
                     rep.count(name, (npop, F, tuple(script)))
-                    exp = textbook(code, cur, best, pop, F, rs)
-                    if len(rs) != k or len(set(rs)) != k or not np.array_equal(np.asarray(out), exp):
-                        rep.problem(name, f"donor is not the {name} combination of {k} pairwise distinct members scaled by F",
-                                    case, f"{name}:formula", True, list(out), exp.tolist(), "C07_donor_formula")
+                    exp = textbook(code, cur, best, pop, F, rs) if (len(rs) == k and len(set(rs)) == k) else None
+                    if exp is None or not np.array_equal(np.asarray(out), exp):
+                        # independent of HOW the indices are sampled: is the donor the strategy's combination of SOME k pairwise
+                        # distinct members?  (all ordered k-tuples; populations here have at most k+2 members)
+                        import itertools as _it
+                        some = any(np.array_equal(np.asarray(out), textbook(code, cur, best, pop, F, list(t)))
+                                   for t in _it.permutations(range(npop), k))
+                        if some:
+                            rep.problem(name, f"{name}: the donor is a combination of distinct members, but not of the indices the draws select in the model "
+                                        "(randomness is consumed differently)", case, f"{name}:draw-usage", False, list(out), None if exp is None else exp.tolist())
+                        else:
+                            rep.problem(name, f"donor is not the {name} combination of {k} pairwise distinct members scaled by F",
+                                        case, f"{name}:formula", True, list(out), None if exp is None else exp.tolist(), "C07_donor_formula")
                     f_mu.add(f"({C.cnat(code)}, {qv(cur)}, {qv(best)}, {qm(pop)}, {C.cq(F)}, {C.cdraws(script)}, {qv(out)})", case)
 
     # ---------------- seeded compiled vs mirror
